@@ -25,6 +25,8 @@ type AppState struct {
 	Raw map[string][]KV // store name -> sorted content
 
 	Balances   map[string]*big.Int // address hex -> stake-denom balance
+	Dust       map[string]*big.Int // address hex -> balance in the second denomination
+	SupplyDust *big.Int
 	OtherDenom bool                // some account holds a denomination other than the stake denom
 	Negative   []string            // addresses with a negative coin
 	AcctErr    []string            // undecodable account records
@@ -133,7 +135,7 @@ func (a *App) Snapshot() (st *AppState, err error) {
 			err = fmt.Errorf("snapshot panic: %v", r)
 		}
 	}()
-	st = &AppState{Raw: a.DumpAll(), Balances: map[string]*big.Int{}, Vals: map[string]posTypes.Validator{},
+	st = &AppState{Raw: a.DumpAll(), Dust: map[string]*big.Int{}, SupplyDust: new(big.Int), Balances: map[string]*big.Int{}, Vals: map[string]posTypes.Validator{},
 		Sign: map[string]posTypes.ValidatorSigningInfo{}, Missed: map[string]map[int64]bool{},
 		Awards: map[string]*big.Int{}, Burns: map[string]string{}, PrevPower: map[string]int64{}, Params: map[string]string{}}
 	st.TransientLen = len(st.Raw["transient_params"])
@@ -145,7 +147,9 @@ func (a *App) Snapshot() (st *AppState, err error) {
 				st.SupplyOK = true
 				st.Supply = new(big.Int).Set(sup.GetTotal().AmountOf(sdk.DefaultStakeDenom).BigInt())
 				for _, c := range sup.GetTotal() {
-					if c.Denom != sdk.DefaultStakeDenom {
+					if c.Denom == DustDenom {
+						st.SupplyDust = new(big.Int).Set(c.Amount.BigInt())
+					} else if c.Denom != sdk.DefaultStakeDenom {
 						st.OtherDenom = true
 					}
 				}
@@ -161,6 +165,8 @@ func (a *App) Snapshot() (st *AppState, err error) {
 			for _, c := range acc.GetCoins() {
 				if c.Denom == sdk.DefaultStakeDenom {
 					amt.Set(c.Amount.BigInt())
+				} else if c.Denom == DustDenom {
+					st.Dust[addr] = new(big.Int).Set(c.Amount.BigInt())
 				} else {
 					st.OtherDenom = true
 				}
